@@ -108,6 +108,11 @@ def _run_check(prop, tier, seed, replay):
 
 
 def main():
+    try:        # `kill -USR1 <pid>` prints the Python stack of a run that seems stuck
+        import faulthandler, signal
+        faulthandler.register(signal.SIGUSR1, all_threads=True)
+    except Exception:
+        pass
     ap = argparse.ArgumentParser()
     ap.add_argument("prop")
     ap.add_argument("--tier", default=os.environ.get("VERIF_TIER", "quick"))
